@@ -64,16 +64,18 @@ func writeEvidenceFile(b *build, a *agg, prop, tier string, seed uint64, violati
 		"race_detector_reports":            a.races,
 		"operations_checked":               a.ops,
 		"pipelines_compared_with_isolated_fresh_process_reference": a.iso,
-		"determinism_probe":       map[string]interface{}{"pairs": a.probePairs, "diverged": a.probeDiv},
-		"infrastructure_failures": len(a.infra),
-		"real_components":         []string{"pkg/parser", "internal/scanner", "internal/php5", "internal/php7", "internal/position", "pkg/token", "pkg/position", "pkg/ast", "pkg/version", "pkg/errors", "pkg/conf", "pkg/visitor/printer", "pkg/visitor/dumper", "pkg/visitor/traverser", "pkg/visitor/nsresolver (all rebuilt from /repo's working tree, instrumented, -race)"},
-		"stub_components":         stubs(prop),
-		"cli_real_main":           cliState(b),
-		"block_size_knob":         knobState(b),
-		"instrumentation":         map[string]interface{}{"cli_redirected": b.instr.CLI, "knob": b.instr.Knob, "sync_rewritten": b.instr.SyncRewrite, "go_statements": b.instr.GoStmts, "channel_ops_wrapped": len(b.instr.ChanWrapped), "not_wrappable": b.instr.ChanOps},
-		"budget":                  map[string]interface{}{"runs_requested": cfg.runs, "wall_budget_s": cfg.budget.Seconds()},
-		"repo_head":               b.head,
-		"repo_worktree_diff_hash": b.diff,
+		"determinism_probe":               map[string]interface{}{"pairs": a.probePairs, "diverged": a.probeDiv},
+		"infrastructure_failures":         len(a.infra),
+		"slowest_run_wall_s":              a.maxRunWall.Seconds(),
+		"runs_retried_after_wall_timeout": a.retried,
+		"real_components":                 []string{"pkg/parser", "internal/scanner", "internal/php5", "internal/php7", "internal/position", "pkg/token", "pkg/position", "pkg/ast", "pkg/version", "pkg/errors", "pkg/conf", "pkg/visitor/printer", "pkg/visitor/dumper", "pkg/visitor/traverser", "pkg/visitor/nsresolver (all rebuilt from /repo's working tree, instrumented, -race)"},
+		"stub_components":                 stubs(prop),
+		"cli_real_main":                   cliState(b),
+		"block_size_knob":                 knobState(b),
+		"instrumentation":                 map[string]interface{}{"cli_redirected": b.instr.CLI, "knob": b.instr.Knob, "sync_rewritten": b.instr.SyncRewrite, "go_statements": b.instr.GoStmts, "channel_ops_wrapped": len(b.instr.ChanWrapped), "not_wrappable": b.instr.ChanOps},
+		"budget":                          map[string]interface{}{"runs_requested": cfg.runs, "wall_budget_s": cfg.budget.Seconds()},
+		"repo_head":                       b.head,
+		"repo_worktree_diff_hash":         b.diff,
 	}
 	ev := map[string]interface{}{
 		"property_id": prop,
